@@ -128,12 +128,17 @@ RAND_PATTERNS = ["/[a-z]+/", "/[a-c]+/", "/[b-d]+/", "/[0-9]+/", "/[0-9a-f]+/", 
 RAND_LITERALS = ['"if"', '"else"', '"ab"', '"a"', '"b"', '"abc"', '"0"', '"00"', '"xy"', '"y"', '"aa"', '"aaa"', '"+"', '"a\\"b"']
 
 
-def spec_of_defs(defs):
+def spec_of_defs(defs, named=False):
+    """named: string literals are declared as named tokens (NAME = "text";) instead of being written inline."""
     lines = ["grammar g;"]
     uses = []
     for i, d in enumerate(defs):
-        if d.startswith('"'):
+        if d.startswith('"') and not named:
             uses.append(d)
+        elif d.startswith('"'):
+            name = "LIT%d" % i
+            lines.append("%s = %s;" % (name, d))
+            uses.append(name)
         else:
             name = "TK%d" % i
             lines.append("%s = %s;" % (name, d))
@@ -173,7 +178,10 @@ def check(tier):
         for _ in range(k):
             s.append(rng.choice(RAND_PATTERNS) if rng.random() < 0.6 else rng.choice(RAND_LITERALS))
         sets.append(list(dict.fromkeys(s)))
-    texts = [spec_of_defs(s) for s in sets]
+    # every family twice: literals written inline, and literals declared as named tokens (name and text differ)
+    with_lits = [s_ for s_ in sets if any(d.startswith('"') for d in s_)]
+    texts = [spec_of_defs(s_) for s_ in sets] + [spec_of_defs(s_, named=True) for s_ in with_lits]
+    sets = sets + with_lits
     res = C.hook_map([{"op": "spec_dfa", "text": t} for t in texts], timeout_each=30)
     insts, meta, dist = [], [], {"accepted": 0, "conflict": 0, "spec_rejected": 0, "nul_set_skipped": 0, "slow": 0}
     other_errors = []
